@@ -1,8 +1,67 @@
-(* C01 — property theorems only; proofs live in Proofs/. *)
+(* C01 — BPSEQ <-> dot-bracket conversion is lossless for every encoder.
+   Property theorems only; proofs live in Proofs/. *)
 From Coq Require Import String Ascii ZArith List Bool Arith.
-From RV Require Import Base.Val Gen.Common Model.Bpseq Model.Spec2D.
+From RV Require Import Base.Val Gen.Common Model.Bpseq Model.Spec2D
+     Proofs.Stack Proofs.Encode Proofs.Fcfs Proofs.Regions Proofs.C01Main.
 Import ListNotations.
 
-Lemma C01_pin_alphabet_sizes : length opening = 30 /\ length closing = 30 /\ length brackets = 30 /\ fcfs_levels = 30.
+(* pins: the alphabet sizes the property names *)
+Lemma C01_pin_alphabet_sizes :
+  length opening = 30 /\ length closing = 30 /\ length brackets = 30 /\ fcfs_levels = 30.
 Proof. repeat split; reflexivity. Qed.
 Print Assumptions C01_pin_alphabet_sizes.
+
+(* pins: the source's three crossing tests are the crossing relation k<m<l<n \/ m<k<n<l *)
+Theorem C01_pin_conflict_tests : forall k l a m n b,
+  (conflict_db k l m n = true <-> crossing (k, l, a) (m, n, b)) /\
+  (conflict_fcfs k l m n = true <-> crossing (k, l, a) (m, n, b)) /\
+  (conflict_all k l m n = true <-> crossing (k, l, a) (m, n, b)).
+Proof. intros. split; [apply conflict_db_spec|split; [apply conflict_fcfs_spec|apply conflict_all_spec]]. Qed.
+Print Assumptions C01_pin_conflict_tests.
+
+(* the regions (stems) of every valid structure: each position lies in at most one strand *)
+Theorem C01_regions_wf : forall b, valid b = true -> regions_wf (length b) (regions b).
+Proof. exact regions_of_valid_wf. Qed.
+Print Assumptions C01_regions_wf.
+
+(* every proper level assignment below 30 levels yields a string of the right length, over the
+   alphabet, balanced per type, that decodes to exactly the pairs of the structure *)
+Theorem C01_encode_decode : forall b ord,
+    valid b = true -> proper (regions b) ord -> (forall o, In o ord -> o < length brackets) ->
+    exists s, make_db b (regions b) ord = Ok s /\
+              length s = length b /\ parse_db s = Ok (pairs0 b) /\ balanced s = true /\
+              forallb in_alphabet s = true /\ lossless b s = true.
+Proof. exact encode_decode. Qed.
+Print Assumptions C01_encode_decode.
+
+(* the checker applied to every implementation output means what the property says *)
+Theorem C01_checker_sound : forall b s, lossless b s = true ->
+    length s = length b /\ forallb in_alphabet s = true /\ balanced s = true /\ parse_db s = Ok (pairs0 b).
+Proof. exact lossless_sound. Qed.
+Print Assumptions C01_checker_sound.
+
+(* FCFS assigns levels properly ... *)
+Theorem C01_fcfs_proper : forall rs ord, fcfs_orders rs = Ok ord ->
+    proper rs ord /\ Forall (fun o => o < fcfs_levels) ord.
+Proof. exact fcfs_orders_proper. Qed.
+Print Assumptions C01_fcfs_proper.
+
+(* ... hence its dot-bracket is lossless ... *)
+Theorem C01_fcfs_lossless : forall b s, valid b = true -> fcfs b = Ok s -> lossless b s = true.
+Proof. exact fcfs_lossless. Qed.
+Print Assumptions C01_fcfs_lossless.
+
+(* ... and when more than 30 levels would be needed it refuses (StopIteration), never a wrong string *)
+Theorem C01_level_overflow : forall b e, valid b = true -> fcfs b = Raise e -> e = StopIteration.
+Proof. exact fcfs_refuses_cleanly. Qed.
+Print Assumptions C01_level_overflow.
+
+(* non-vacuity and the negative example: a kissing pattern; a proper assignment is lossless,
+   an improper one (two crossing stems on one level) is not *)
+Example C01_nonvacuous :
+  let b := map (fun x => {| idx := fst x; nt := "A"%char; pair := snd x |})
+               [(1,7);(2,6);(3,0);(4,9);(5,10);(6,2);(7,1);(8,0);(9,4);(10,5)] in
+  valid b = true /\ regions b = [(1,7,2);(4,9,1);(5,10,1)] /\
+  (exists s, make_db b (regions b) [0;1;2] = Ok s /\ lossless b s = true) /\
+  (exists s, make_db b (regions b) [0;1;1] = Ok s /\ lossless b s = false).
+Proof. exact improper_loses_pairs. Qed.
